@@ -669,6 +669,8 @@ class Exec:
 
     def compare(self, op, l, r):
         if isinstance(op, (ast.Is, ast.IsNot)):
+            if (isinstance(l, _Builtin) and l.unknown) or (isinstance(r, _Builtin) and r.unknown):
+                raise OutOfSubset("identity test on an undetermined type()")
             if l is None or r is None:
                 other = r if l is None else l
                 if isinstance(other, Opaque):
@@ -708,6 +710,8 @@ class Exec:
 
     def py_eq(self, l, r):
         from .values import DSet
+        if (isinstance(l, _Builtin) and l.unknown) or (isinstance(r, _Builtin) and r.unknown):
+            raise OutOfSubset("comparison of an undetermined type()")
         if isinstance(l, DSet) or isinstance(r, DSet):
             raise OutOfSubset("== on a set of symbolic elements")
         if isinstance(l, SetLen) or isinstance(r, SetLen):
@@ -1153,6 +1157,7 @@ _MISSING = _Missing()
 class _Builtin:
     def __init__(self, name):
         self.name = name
+        self.unknown = name.startswith("<one of ")  # type() of an object with several candidate classes: usable for its name only
 
     def __repr__(self):
         return f"<builtin {self.name}>"
